@@ -41,7 +41,15 @@ def run(ctx, proof):
                 for r in (0, 1):
                     cases.append(dict(c, K=sorted(K), stale=None, comp=f"sam:{r}", r=r))
 
+    # r = 0 at n >= 5: one monotone-closure sweep only, so an unknown super-coalition whose lower bound comes from known
+    # blocks is the only carrier of that information (no later superadditive pass repairs a shortcut)
+    pool5 = campaign.make_cases(ctx, ["x"], "sam", [(5, 10, 3), (6, 5, 3)] if ctx.quick else [(5, 60, 5), (6, 30, 4), (7, 4, 2)])
+    for c in pool5:
+        cases.append(dict(c, comp="sam:0", r=0))
+
     def oracle(c, tab):
+        if "r" not in c:
+            c = dict(c, r=int(c["comp"].split(":")[1]))
         n, v, K, r = c["n"], c["v"], c["K"], c["r"]
         exact = c["stream"] == "exact"
         fails = bl.oracle_sound(n, v, K, tab, exact)
@@ -79,6 +87,11 @@ def run(ctx, proof):
     for c in cases:
         ctx.count("repetitions", c["r"])
     mism = campaign.run_cases(ctx, cases, ORACLES)
+    # the same statement on ONE long-lived object whose knowledge changes and returns (gym step/unstep, meta-game resets):
+    # every compute of the history is judged by the oracle and compared with the model
+    hcomps = ["sam:0", "sam:1", "sam:2", "sam:10"]
+    mism += campaign.run_histories(ctx, hcomps, "sam", [(3, 12, 12), (4, 12, 14), (5, 4, 12)] if ctx.quick else
+                                   [(3, 150, 30), (4, 120, 30), (5, 40, 24)], ORACLES)
     import coqshard
     coqshard.cross_check(ctx, cases, limit=8 if ctx.quick else 40)
     campaign.report_mismatches(ctx, mism, ORACLES, "compute_bounds_superadditive_monotone_approx_cached (impl) = compute_sam (model)")
